@@ -96,7 +96,41 @@ def cfg_key(c: dict) -> str:
     k = '%s/%s/%s' % (c['lang'], c.get('std') or '-', 'pod' if c['pod'] else 'ser')
     if c.get('opts'):
         k += '/' + '+'.join(o.lstrip('-') for o in c['opts'])
+    if c.get('yaml'):
+        k += '/yaml:' + ','.join('%s=%s' % (kk, vv) for sec in sorted(c['yaml']) for kk, vv in sorted(c['yaml'][sec].items()))
     return k
+
+
+# generic generator flags of the CLI that change the rendered text of every file (the property quantifies over "options")
+GENERIC_FLAGS = [['--trim-blocks'], ['--lstrip-blocks'], ['--generate-namespace-types'], ['--pp-max-emptylines', '0'], ['--pp-trim-trailing-whitespace'],
+                 ['--embed-auditing-info']]
+# (flag, language) pairs a listed finding covers: while its witness reproduces for that pair the configuration is only probed, not swept
+FLAG_FINDINGS = {'F-C06-WS-CONTROL': {('--trim-blocks', 'c'), ('--trim-blocks', 'cpp'), ('--trim-blocks', 'py'), ('--lstrip-blocks', 'py')},
+                 'F-C06-NS-TYPES': {('--generate-namespace-types', 'c'), ('--generate-namespace-types', 'cpp')}}
+LIVE_CFGS: typing.Dict[str, typing.Set[str]] = {}     # finding id -> configuration keys of its witness that reproduced (filled by probe_findings)
+
+
+def generic_flag_configs(rng, quick: bool) -> typing.Tuple[typing.List[dict], typing.List[str]]:
+    """one single-flag configuration per generic flag and language (C++ standard rotating); flags are checked against the CLI (fail closed)"""
+    problems = []
+    try:
+        cli = open(os.path.join(core.REPO, 'src', 'nunavut', 'cli', '__init__.py'), encoding='utf-8').read()
+    except OSError as ex:
+        return [], ['cannot read cli: %r' % ex]
+    out = []
+    for i, fl in enumerate(GENERIC_FLAGS):
+        if '"%s"' % fl[0] not in cli:
+            problems.append('generic flag %s is no longer defined by the CLI' % fl[0])
+            continue
+        for lang in ('c', 'cpp', 'py'):
+            covered = [f for f, pairs in FLAG_FINDINGS.items() if (fl[0], lang) in pairs]
+            cfg = {'lang': lang, 'std': (CPP_STDS[i % len(CPP_STDS)] if lang == 'cpp' else None), 'pod': False, 'opts': list(fl)}
+            if any(any(k.split('/')[0] == lang and k.endswith(fl[0].lstrip('-')) for k in LIVE_CFGS.get(f, ())) for f in covered):
+                continue        # known finding reproduces for this pair
+            out.append(cfg)
+    if quick and out:
+        out = [rng.choice(out)]
+    return out, problems
 
 
 # ---------------------------------------------------------------------------------------------
@@ -347,6 +381,15 @@ FINDINGS: typing.Dict[str, dict] = {
         # diagnostics of these clashes vary (allocator traits, template lookup), but the first one with its instantiation context and
         # source line must name the clashing identifier
         match=lambda j, out: mentions(diag_head(out), member_clash_names(j))),
+    'F-C06-CPP-DOC': dict(
+        trigger=lambda j: j.lang == 'cpp' and any(bad_doc(d) for t in j.clos for d in t.get('docs', [])),
+        signature=r'\[-Werror=comment\]|\[-Werror=trigraphs\]|trigraph'),
+    'F-C06-C-GENERATED-NAME': dict(
+        trigger=lambda j: j.lang == 'c' and bool(generated_name_clashes(j)),
+        match=lambda j, out: bool(re.search(r'redefined|expected identifier|expected unqualified-id|conflicting types|redeclared|redefinition|expected declaration', first_error(out)))
+        and any(('_' + n) in diag_head(out) for n in generated_name_clashes(j))),      # `<T>_<NAME>`: the name follows the type's reference name
+    'F-C06-WS-CONTROL': dict(trigger=lambda j: False, signature=r'$^'),      # configuration-level: live pairs are not swept (FLAG_FINDINGS)
+    'F-C06-NS-TYPES': dict(trigger=lambda j: False, signature=r'$^'),
     'F-C06-CPP-PADONLY': dict(
         trigger=lambda j: j.lang == 'cpp' and not j.cfg['pod'] and any(t.get('padding_only_sections') for t in j.clos),
         signature=r"unused parameter .obj."),
@@ -438,6 +481,25 @@ def strop_folded(j: Job) -> typing.List[typing.Tuple[str, str, str]]:
     return out
 
 
+def bad_doc(d: str) -> bool:
+    return bool(re.search(r'\\(?=\s|\Z)', d)) or '??' in d
+
+
+def generated_name_clashes(j: Job) -> typing.Set[str]:
+    """attribute / constant names of the closure equal to a name the C templates append to the SAME type's reference name: `NAME_`, or
+    `<field>_ARRAY_CAPACITY_`-style around a field of that type, or `is_<field>_` / `select_<field>_`"""
+    gen_names = set(dg.generated_c_names(core.REPO))
+    suf, pre = dg.generated_c_field_names(core.REPO)
+    out = set()
+    for t in j.clos:
+        names = set(t['names']) | {c['name'] for c in t['consts']}
+        fields = set(t['names'])
+        for n in names:
+            if n in gen_names or any(n == f + '_' + s_ for f in fields for s_ in suf) or any(n == p_ + f + '_' for f in fields for p_ in pre):
+                out.add(n)
+    return out
+
+
 def py_shadowing_packages(j: Job) -> typing.Set[str]:
     """top-level packages of the output directory (= stropped root namespaces, of the module's own root or of any other root generated
     into the same directory) that are named like a standard-library module: with the output directory on sys.path they shadow it, or
@@ -446,7 +508,7 @@ def py_shadowing_packages(j: Job) -> typing.Set[str]:
         tops = {n for n in os.listdir(j.out) if os.path.isdir(os.path.join(j.out, n))}
     except OSError:
         tops = set()
-    return tops & set(getattr(sys, 'stdlib_module_names', ()))
+    return tops & (set(getattr(sys, 'stdlib_module_names', ())) | set(dg.PY_SUPPORT_ROOTS))
 
 
 def ns_shadow(j: Job) -> bool:
@@ -990,12 +1052,21 @@ def probe_findings(chk: core.Check, builder: Builder) -> typing.Tuple[typing.Set
             continue
         hit = False
         for cfg in e['witness']['configs']:
+            run = res['runs'].get(cfg_key(cfg))
+            if run is not None and not run['ok']:
+                # a witness of "generation does not complete"
+                if e['witness'].get('expect_generation_failure') and re.search(e['witness']['expect'], run['log']):
+                    hit = True
+                    LIVE_CFGS.setdefault(fid, set()).add(cfg_key(cfg))
+                    detail[fid] = run['log'].strip().splitlines()[-1][:200]
+                continue
             for j in make_jobs(0, res, [cfg]):
                 if j.rel != e['witness']['header'].get(cfg['lang']):
                     continue
                 rc, out = builder.run(j)
                 if (rc != 0 or out.strip()) and re.search(e['witness']['expect'], out):
                     hit = True
+                    LIVE_CFGS.setdefault(fid, set()).add(cfg_key(cfg))
                     detail[fid] = first_error(out)[:200]
         if hit:
             live.add(fid)
@@ -1091,6 +1162,10 @@ def main(chk: core.Check, replay: typing.Optional[str] = None) -> int:
     for pr in opt_problems:
         broken.append('language option matrix: ' + pr)
     extra_cfgs = option_configs(opt_dims, chk.rng, quick) if not replay else []
+    gf_cfgs, gf_problems = generic_flag_configs(chk.rng, quick) if not replay else ([], [])
+    for pr in gf_problems:
+        broken.append('generic flag matrix: ' + pr)
+    extra_cfgs += gf_cfgs
     opt_cases = [i for i in range(len(cases)) if i < (1 if quick else 2) or (not quick and i < 2 + n_wit + 8)] if extra_cfgs else []
     opt_cases = [i for i in opt_cases if outs[i] is not None and outs[i].get('valid')]
     for b in range(0, len(opt_cases), batch):
